@@ -104,28 +104,105 @@ theorem initDown_ok (cfg : Cfg) (c : Ctx) (m15 : String) (hm : cfg.kind m15 = .d
   · exact any_of_mem _ _ (le (.raw "samples.timestamp_ns") (.int c.toNs)) (by simp) (by simp [isUpperTs, le, isTsCol, winOf])
   · exact any_of_mem _ _ (getTypes c) (by simp) (getTypes_isTypeFilter c)
 
+/-- the label index query of `fingerprintsQuery` (either Go path) scans the index under the date bound and the type
+    filter, whatever the required bits are -/
+theorem fpSel_confined (cfg : Cfg) (c : Ctx) (h : LokiCfg cfg c) (ok : List Alias) (ms : List Matcher) (req : List Bool) :
+    bodyConfined cfg (winOf c) ok (Prom.fpSel c ms req) = true := by
+  have h1 := getTypes_isTypeFilter c
+  have h2 := lowerDate_ok c
+  have h3 : isTypeFilter (winOf c) ((Expr.raw "type").isIn [Expr.int (if c.tp = 0 then 1 else ↑c.tp), Expr.int 0]) = true := h1
+  by_cases hr : (Prom.Bits.requiredConst req != 0) = true
+  · have hc : conjuncts (some (and_ [ge (.raw "date") (.str (Time.formatFromDate c.fromNs)), getTypes c, or_ (ms.map matcherClause)])) =
+        [ge (.raw "date") (.str (Time.formatFromDate c.fromNs)), getTypes c, or_ (ms.map matcherClause)] :=
+      conjuncts_and_flat _ (by
+        intro e he
+        simp only [List.mem_cons, List.mem_singleton, List.not_mem_nil, or_false] at he
+        rcases he with rfl | rfl | rfl
+        · exact splice_logical _ _ (by decide)
+        · rfl
+        · exact splice_logical _ _ (by decide))
+    simp only [Prom.fpSel, hr, if_true, List.cons_append, List.nil_append, bodyConfined, fromTable, h.gin, conjuncts_none, hc]
+    simp only [Bool.and_eq_true, Bool.or_eq_true]
+    refine ⟨?_, Or.inl ⟨?_, Or.inr ?_⟩⟩
+    · simp [List.all, dateLower, dateUpper, mentionsDate, isDateCol, ge, h2, getTypes, or_]
+    · simp [List.any, dateLower, isDateCol, ge]
+    · simp [List.any, h3, getTypes]
+  · have hc : conjuncts (some (and_ [ge (.raw "date") (.str (Time.formatFromDate c.fromNs)), getTypes c])) =
+        [ge (.raw "date") (.str (Time.formatFromDate c.fromNs)), getTypes c] :=
+      conjuncts_and_flat _ (by
+        intro e he
+        simp only [List.mem_cons, List.mem_singleton, List.not_mem_nil, or_false] at he
+        rcases he with rfl | rfl
+        · exact splice_logical _ _ (by decide)
+        · rfl)
+    simp only [Prom.fpSel, hr, Bool.false_eq_true, if_false, List.append_nil, bodyConfined, fromTable, h.gin, conjuncts_none, List.nil_append, hc]
+    simp only [Bool.and_eq_true, Bool.or_eq_true]
+    refine ⟨?_, Or.inl ⟨?_, Or.inr ?_⟩⟩
+    · simp [List.all, dateLower, dateUpper, mentionsDate, isDateCol, ge, h2, getTypes]
+    · simp [List.any, dateLower, isDateCol, ge]
+    · simp [List.any, h3, getTypes]
+
+/-- with every bit required (at most 63 matchers, at least one) `fpSel` is the shared planner's statement -/
+theorem fpSel_all_required (c : Ctx) (ms : List Matcher) (hne : ms ≠ []) (h63 : ms.length ≤ 63) :
+    Prom.fpSel c ms (List.replicate ms.length true) = streamSelect c ms := by
+  have hb : Prom.Bits.bits (List.replicate ms.length true) = 2 ^ ms.length - 1 := by
+    generalize ms.length = n
+    induction n with
+    | zero => rfl
+    | succ k ih =>
+      have hk : 2 ^ k ≥ 1 := Nat.one_le_two_pow
+      simp only [List.replicate_succ, Prom.Bits.bits, Bool.toNat_true, ih, Nat.pow_succ]
+      omega
+  have h1 : Prom.Bits.bitsW 64 (List.replicate ms.length true) = 2 ^ ms.length - 1 := by
+    rw [Prom.Bits.bitsW_eq 64 _ (by simp; omega), hb]
+  have hlt : 2 ^ ms.length - 1 < 2 ^ 63 := by
+    have : 2 ^ ms.length ≤ 2 ^ 63 := Nat.pow_le_pow_right (by decide) h63
+    have : 2 ^ ms.length ≥ 1 := Nat.one_le_two_pow
+    omega
+  have hpos : 2 ^ ms.length ≥ 2 := by
+    have : ms.length ≥ 1 := by
+      cases ms with
+      | nil => exact absurd rfl hne
+      | cons a l => simp
+    calc 2 ^ ms.length ≥ 2 ^ 1 := Nat.pow_le_pow_right (by decide) this
+      _ = 2 := rfl
+  have hr : Prom.Bits.requiredConst (List.replicate ms.length true) = (2 : Int) ^ ms.length - 1 := by
+    have h2 : ((2 ^ ms.length : Nat) : Int) = (2 : Int) ^ ms.length := by simp
+    simp only [Prom.Bits.requiredConst, h1, hlt, if_true]
+    rw [← h2]; omega
+  have hne0 : ((2 : Int) ^ ms.length - 1 != 0) = true := by
+    have h2 : ((2 ^ ms.length : Nat) : Int) = (2 : Int) ^ ms.length := by simp
+    simp only [bne_iff_ne, ne_eq]
+    rw [← h2]; omega
+  have hemp : (ms.map matcherClause).isEmpty = false := by
+    cases ms with
+    | nil => exact absurd rfl hne
+    | cons a l => rfl
+  simp [Prom.fpSel, streamSelect, hr, hne0, hemp]
+
 open Qryn.Prom in
-theorem withFp_good (cfg : Cfg) (c : Ctx) (h : LokiCfg cfg c) (ms : List Matcher) (col : String) {main : Sel}
-    (hm : DataOK cfg (winOf c) main) : GoodB cfg (winOf c) (withFp c ms col main) := by
+theorem withFp_good (cfg : Cfg) (c : Ctx) (h : LokiCfg cfg c) (ms : List Matcher) (req : List Bool) (col : String) {main : Sel}
+    (hm : DataOK cfg (winOf c) main) : GoodB cfg (winOf c) (withFp c ms req col main) := by
   unfold withFp
   refine GoodB.andWhere ⟨?_, Or.inl (hm.congr (by simp) (by simp) (by simp))⟩ _
   apply with_inv _ _ _ (bodyConfined_Mono cfg _) (yieldC_Mono cfg)
   intro e he
   simp only [List.mem_singleton] at he
   subst he
-  exact ⟨(streamSelect_confined cfg c h [] ms).1, ⟨(by intro hg; cases hg), trivial⟩⟩
+  exact ⟨fpSel_confined cfg c h [] ms req, ⟨(by intro hg; cases hg), trivial⟩⟩
 
 open Qryn.Prom in
 theorem processHints_good {cfg : Cfg} {w : Window} (hh : Hints) {q : Sel} (g : GoodB cfg w q) : GoodB cfg w (processHints hh q) := by
   unfold processHints
   dsimp only
-  have g1 : GoodB cfg w (if (instantFns.contains hh.func || hh.func == "") = true then
+  have g1 : GoodB cfg w (if ((instantFns.contains hh.func || hh.func == "") && hh.rangeMs == 0 && lookbackMs % hh.stepMs == 0) = true then
       (Sel.mk [] false
         [.raw "fingerprint", simpleCol "argMax(spls.value, spls.timestamp_ms)" "value",
-         simpleCol ("intDiv(spls.timestamp_ms - " ++ toString hh.startMs ++ " + " ++ toString hh.stepMs ++ " - 1, " ++
-           toString hh.stepMs ++ ") * " ++ toString hh.stepMs ++ " + " ++ toString hh.startMs) "timestamp_ms"]
-        (some (.withRef (.named "spls"))) [] none none [.raw "timestamp_ms", .raw "fingerprint"] none
-        [.orderBy (.raw "fingerprint") .asc, .orderBy (.raw "timestamp_ms") .asc] none).with_ [(.named "spls", q)]
+         simpleCol "max(spls.timestamp_ms)" "last_ms"]
+        (some (.withRef (.named "spls"))) [] none none
+        [.raw ("intDiv(spls.timestamp_ms - " ++ toString hh.startMs ++ " + " ++ toString hh.stepMs ++ " - 1, " ++
+           toString hh.stepMs ++ ")"), .raw "fingerprint"] none
+        [.orderBy (.raw "fingerprint") .asc, .orderBy (.raw "last_ms") .asc] none).with_ [(.named "spls", q)]
       else q) := by
     split
     · refine ⟨?_, Or.inr (by simp only [fromOf_with_]; rfl)⟩
@@ -150,10 +227,10 @@ theorem downHints_good {cfg : Cfg} {w : Window} (hh : Hints) {q : Sel} (g : Good
     · exact (g.setCols _).setCols _
 
 /-- `TranspileLabelMatchers`: the raw-sample statement for every hint and matcher list -/
-theorem transpileRaw_confined (cfg : Cfg) (c : Ctx) (h : LokiCfg cfg c) (hh : Prom.Hints) (ms : List Matcher) :
-    confined cfg (winOf c) (Prom.transpileRaw c hh ms) = true := by
-  have g0 := withFp_good cfg c h ms "samples.fingerprint" (initRaw_ok cfg c h)
-  have g : GoodB cfg (winOf c) (Prom.transpileRaw c hh ms) := by
+theorem transpileRaw_confined (cfg : Cfg) (c : Ctx) (h : LokiCfg cfg c) (hh : Prom.Hints) (ms : List Matcher) (req : List Bool) :
+    confined cfg (winOf c) (Prom.transpileRaw c hh ms req) = true := by
+  have g0 := withFp_good cfg c h ms req "samples.fingerprint" (initRaw_ok cfg c h)
+  have g : GoodB cfg (winOf c) (Prom.transpileRaw c hh ms req) := by
     unfold Prom.transpileRaw
     dsimp only
     split
@@ -163,8 +240,8 @@ theorem transpileRaw_confined (cfg : Cfg) (c : Ctx) (h : LokiCfg cfg c) (hh : Pr
 
 /-- `GetLabelMatchersDownsampleRequest`: the 15 s rollup statement for every hint and matcher list -/
 theorem transpileDown_confined (cfg : Cfg) (c : Ctx) (h : LokiCfg cfg c) (m15 : String) (hm : cfg.kind m15 = .data)
-    (hh : Prom.Hints) (ms : List Matcher) : confined cfg (winOf c) (Prom.transpileDown c m15 hh ms) = true := by
-  have g := downHints_good hh (withFp_good cfg c h ms "fingerprint" (initDown_ok cfg c m15 hm))
+    (hh : Prom.Hints) (ms : List Matcher) (req : List Bool) : confined cfg (winOf c) (Prom.transpileDown c m15 hh ms req) = true := by
+  have g := downHints_good hh (withFp_good cfg c h ms req "fingerprint" (initDown_ok cfg c m15 hm))
   exact confined_of_inv cfg _ isSubAlias _ (.named "statement") (g.good.entry "statement")
 
 
